@@ -20,6 +20,8 @@ import Proofs.Format
 import Proofs.FormatTopo
 import Proofs.FormatClosure
 import Proofs.FormatQuote
+import Martian.FormatExp
+import Gen.Facts
 
 namespace Props.C09
 open Martian.Format
@@ -149,5 +151,14 @@ theorem raw_emission_breaks :
     Martian.Lexer.matchString (emitRaw [0x61, 0x22, 0x62] ++ [0x2C]) = some [0x22, 0x61, 0x22] ∧
     Martian.Lexer.matchString (quoteString [0x61, 0x22, 0x62] ++ [0x2C]) = some (quoteString [0x61, 0x22, 0x62]) := by
   decide
+
+/-- the keyword table the tokenizer model uses is the one in tokenizer.go now:
+`Gen.tokKeywords` is re-read on every run from the `bytesPrefixString(b, X)` calls
+of `keywordToken` (text, token constant; source order; without `@include`) -/
+theorem keyword_table_current : Gen.tokKeywords = Martian.FormatExp.keywordTable := by decide
+
+/-- … and the tokens the grammar's `id` production accepts besides `ID` are the
+alternatives of that production in grammar.y now (`Gen.idTokens`, source order) -/
+theorem id_tokens_current : Gen.idTokens = Martian.FormatExp.idTokens := by decide
 
 end Props.C09
